@@ -2,6 +2,7 @@ package main
 
 import (
 	"verif/engines/chunk"
+	"verif/engines/pull"
 	"verif/simkit"
 )
 
@@ -33,5 +34,14 @@ func init() {
 			"stub": {"io.Reader (simkit.Reader)", "downstream visitor (simkit.Tap recorder)"}},
 		Assumptions: []string{"documents come from the harness's independent writers; the reference outcome is the same parser class fed the whole document in one call",
 			"no (0,nil) reads with a non-empty buffer are injected"},
+	}
+	registry["C18"] = &propCfg{
+		Engine: pull.Engine{}, EngineName: "pull", Level: "exploration",
+		QuickRuns: 40000, ThoroughRuns: 4000000, QuickCapS: 60, ThoroughCapS: 900,
+		Rule: "one run = one stream of k in [0,6] top-level values from the independent writers, read through 3-6 decoder/reader plans (NewBytesDecoder, or NewDecoder with buffer size from {1,2,3,7,16,64,4096}, seeded short-read sizes, EOF with or after the data, optional truncation inside a value); evaluations = decoder plans executed; distinct by (stream bytes, constructor, buffer size, read plan, eof mode); every plan is non-trivial (k+1 Next calls against a scheduled reader)",
+		Components: map[string][]string{
+			"real": {"json.Decoder", "ubjson.Decoder", "cborl.Decoder", "the three push parsers (per-value reference)"},
+			"stub": {"io.Reader (simkit.Reader)", "downstream visitor (simkit.Tap recorder)"}},
+		Assumptions: []string{"reference events per value are those of the push parser on that value alone", "no (0,nil) reads with a non-empty buffer are injected; buffer size >= 1"},
 	}
 }
